@@ -3,6 +3,7 @@ package main
 import (
 	"fmt"
 	"go/ast"
+	"go/token"
 	"go/types"
 	"math/big"
 	"sort"
@@ -192,7 +193,8 @@ func (v *Verifier) enumerateCases(fr *FuncRef, fc *FuncContract) []caseSpec {
 }
 
 type Verifier struct {
-	renameNotes []string // contracts adapted to renamed parameters/locals (function: old->new)
+	invProjFor  map[string]bool // functions to verify with invariant projections (establishers)
+	renameNotes []string        // contracts adapted to renamed parameters/locals (function: old->new)
 	gidx        *globalIndex
 	cfgLabel    string   // non-empty when this run analyses an alternative build configuration (C17)
 	altCfgs     []string // alternative configurations that were analysed as well
@@ -376,6 +378,7 @@ func (ex *Exec) entryCtx() *SpecCtx {
 func (v *Verifier) VerifyFunc(fr *FuncRef, fc *FuncContract) (obs []*Oblig, err error) {
 	ex := v.newExec(fr, fc)
 	ex.schedMode = v.schedMode
+	ex.invProj = v.invProjFor[fr.QName()]
 	defer func() {
 		if r := recover(); r != nil {
 			if ee, ok := r.(engineError); ok {
@@ -628,6 +631,23 @@ func (ex *Exec) atReturn(results []Value) {
 			o.Hyps = append(o.Hyps, ctx.tryTerm(by))
 		}
 	}
+	// invariant projections (only for functions that are in a cone as establishers of a representation invariant the
+	// property's own functions rely on): the conjuncts of each postcondition that speak about inv/wf3/wfs
+	if ex.invProj && !ex.mode.Staged {
+		for _, en := range fc.Ensures {
+			pr := projectInv(en.Expr)
+			if pr == nil {
+				continue
+			}
+			o := ex.oblige("post", en.Name+"/inv", ctx.term(pr), "representation-invariant part of: "+en.Text)
+			o.Props = en.Props
+			o.Ring = ex.mode.Name == "ring"
+			o.Hyps = append(o.Hyps, extra...)
+			for _, by := range en.By {
+				o.Hyps = append(o.Hyps, ctx.tryTerm(by))
+			}
+		}
+	}
 	// derived clauses: consequences of the precondition, the (separately proved) postconditions and lemma instances
 	var base []*Term
 	for i := 0; i < ex.nPreFacts && i < len(ex.st.facts); i++ {
@@ -643,6 +663,11 @@ func (ex *Exec) atReturn(results []Value) {
 		o.Hyps = append([]*Term{}, base...)
 		for _, by := range dv.By {
 			o.Hyps = append(o.Hyps, ctx.tryTerm(by))
+		}
+		if pr := projectInv(dv.Expr); ex.invProj && pr != nil {
+			oi := ex.oblige("derive", dv.Name+"/inv", ctx.term(pr), "representation-invariant part of: "+dv.Text)
+			oi.Props = dv.Props
+			oi.Hyps = append([]*Term{}, o.Hyps...)
 		}
 		base = append(base, g)
 	}
@@ -755,4 +780,60 @@ func depth(t *Term) int {
 		n++
 	}
 	return n
+}
+
+// invariantPreds are the representation-invariant predicates of the API-level types.
+var invariantPreds = map[string]bool{"inv": true, "wf3": true, "wfs": true}
+
+// projectInv keeps the conjuncts of a clause that are applications of an invariant predicate (under the same
+// implications); nil when there are none.
+func projectInv(e ast.Expr) ast.Expr {
+	switch x := e.(type) {
+	case *ast.ParenExpr:
+		return projectInv(x.X)
+	case *ast.BinaryExpr:
+		if x.Op == token.LAND {
+			a, b := projectInv(x.X), projectInv(x.Y)
+			switch {
+			case a == nil:
+				return b
+			case b == nil:
+				return a
+			}
+			return &ast.BinaryExpr{X: a, Op: token.LAND, Y: b}
+		}
+	case *ast.CallExpr:
+		if id, ok := x.Fun.(*ast.Ident); ok {
+			if invariantPreds[id.Name] {
+				return x
+			}
+			if id.Name == "imp" && len(x.Args) == 2 {
+				if c := projectInv(x.Args[1]); c != nil {
+					return &ast.CallExpr{Fun: x.Fun, Args: []ast.Expr{x.Args[0], c}}
+				}
+			}
+		}
+	}
+	return nil
+}
+
+// reliedInvariantTypes: the API-level types whose representation invariant a contract's precondition relies on.
+func reliedInvariantTypes(fc *FuncContract) map[string]bool {
+	out := map[string]bool{}
+	for _, rq := range fc.Requires {
+		ast.Inspect(rq.Expr, func(n ast.Node) bool {
+			if c, ok := n.(*ast.CallExpr); ok {
+				if id, ok := c.Fun.(*ast.Ident); ok {
+					switch id.Name {
+					case "inv", "wf3":
+						out["Element"] = true
+					case "wfs":
+						out["Scalar"] = true
+					}
+				}
+			}
+			return true
+		})
+	}
+	return out
 }
